@@ -120,6 +120,19 @@ def run(rep, tier, seed):
                      f"gp-deep-{how}", space="sc")
         for k, v in c.items():
             total[k] = total.get(k, 0) + v
+    # snapshots between two back-to-back suggestions of the model-based phase (no new observation in between): what the
+    # surrogate model was last fitted to is part of the state
+    def b2b(k):
+        h = [{"a": "Suggest"} for _ in range(3)]
+        for t in range(3):
+            h += [{"a": "Result", "t": t}] * (1 + (t + k) % 2)
+        h += [{"a": "Suggest"}, {"a": "Restore"}, {"a": "Suggest"}, {"a": "Result", "t": 3}, {"a": "Suggest"},
+              {"a": "Result", "t": 4}, {"a": "Result", "t": 5}, {"a": "Suggest"}, {"a": "Restore"}, {"a": "Suggest"}, {"a": "Suggest"}]
+        return h
+    for how in ("state", "dill"):
+        c = campaign(rep, GP_STATE, how, [b2b(0), b2b(1)], seed * 100 + 41, 4 if tier == "quick" else 12, f"gp-back-to-back-{how}")
+        for k, v in c.items():
+            total[k] = total.get(k, 0) + v
     rep.extra["flags_seen_in_traces"] = total
     # the design-level obligation: Restore is a stuttering step of the abstract state (TwinRestore_MC)
     from harness import tlc
